@@ -24,7 +24,36 @@ VAL = {"ref": None, "empty": "", "v0": "0", "v1": "1", "v2": "2", "txt": "select
        "hostile1": "q\\1+", "hostile2": "'a\\n\"b'", "hostile3": "[a-z]*$(x|y)\\d",
        "py1": "__import__('os').system('touch %(canary)s')", "py2": "open('%(canary)s','w').write('x')",
        "py3": "(lambda: __import__('pathlib').Path('%(canary)s').touch())()", "py4": "[c for c in ().__class__.__base__.__subclasses__()]",
-       "py5": "exec(\"open('%(canary)s','w')\")", "py6": "__builtins__"}
+       "py5": "exec(\"open('%(canary)s','w')\")", "py6": "__builtins__", "fn": "fn:x+1"}
+HEADERS = {"hdef.h": "#define B 1\n", "hloop.h": '#include "hloop.h"\n#include "hloop.h"\n',
+           "hping.h": '#include "hpong.h"\n#include "hpong.h"\n', "hpong.h": '#include "hping.h"\n#include "hping.h"\n#define B 1\n'}
+_HDR = None
+
+
+def header_dir():
+    """Directory holding the fixed headers of Preproc.tla's Include action (created once, inherited by workers)."""
+    global _HDR
+    if _HDR is None or not os.path.isdir(_HDR):
+        _HDR = adapter.mkws(HEADERS, prefix="hdr")
+    return _HDR
+
+
+def use_text(name, form):
+    return {"bare": name, "call": "%s(2)" % name, "call2": "%s(2)+%s(3)" % (name, name)}[form]
+
+
+def expected_use(rec, empty=""):
+    """Text a macro use is replaced by, from the spec's record of the line."""
+    form, ex, val = rec.get("form", "bare"), rec["exp"], rec["val"]
+    if form == "bare":
+        return ex["x"] if ex["t"] == "name" else (empty if ex["x"] == "empty" else VAL[ex["x"]])
+    args = ["2"] if form == "call" else ["2", "3"]
+    if val == "undef":
+        return use_text(rec["use"], form)
+    if val == "fn":
+        return "+".join(a + "+1" for a in args)        # body x+1 with x := argument
+    body = empty if val == "empty" else VAL[val]
+    return "+".join("%s(%s)" % (body, a) for a in args)
 
 
 def expr_text(e):
@@ -72,14 +101,19 @@ def render(st, canary="/nonexistent/canary"):
             v = VAL[rec["v"]] % {"canary": canary} if rec["v"].startswith("py") else VAL[rec["v"]]
             if rec["v"] == "ref":
                 v = [n for n in st["defs"] if n != rec["n"]][0]
-            lines.append(("#define %s %s" % (rec["n"], v)).rstrip())
+            if rec["v"] == "fn":
+                lines.append("#define %s(x) x+1" % rec["n"])
+            else:
+                lines.append(("#define %s %s" % (rec["n"], v)).rstrip())
         elif k == "undef":
             lines.append("#undef " + rec["n"])
         elif k == "code":
             if rec["use"] == "none":
                 lines.append("integer :: v%d" % ln)
             else:
-                lines.append("integer :: w%d = %s" % (ln, rec["use"]))
+                lines.append("integer :: w%d = %s" % (ln, use_text(rec["use"], rec.get("form", "bare"))))
+        elif k == "include":
+            lines.append('#include "%s.h"' % rec["h"])
     nopen = len(st["frames"])
     lines += ["#endif"] * nopen
     init = {n: VAL[v] for n, v in st["init0"].items() if v != "undef"}
@@ -103,7 +137,7 @@ def check_state(st):
     lines, init = render(st)
     out = []
     try:
-        outp, skips, _defines, defs = preprocess_file(list(lines), None, pp_defs=dict(init))
+        outp, skips, _defines, defs = preprocess_file(list(lines), None, pp_defs=dict(init), include_dirs={header_dir()})
     except Exception as ex:  # totality is C03's business but a crash here is still a failure
         return [({"error:" + type(ex).__name__}, {"lines": lines, "init": init, "exception": repr(ex)})]
     kinds = {r["k"] for r in st["file"]}
@@ -131,12 +165,14 @@ def check_state(st):
         if rec["live"] and rec["use"] != "none":
             val = rec["val"]
             ex = rec["exp"]
-            exp = "integer :: w%d = %s" % (ln, ex["x"] if ex["t"] == "name" else VAL[ex["x"]])
+            exp = "integer :: w%d = %s" % (ln, expected_use(rec))
             if outp[ln - 1] != exp:
                 t = {"diff:expansion", "val:" + val}
-                if ex["t"] == "val" and ex["x"] == "empty":
+                if rec.get("form", "bare") != "bare":
+                    t.add("form:" + rec["form"])
+                if (ex["t"] == "val" and ex["x"] == "empty") or (val == "empty" and rec.get("form", "bare") != "bare"):
                     t.add("resolved:empty")
-                    if outp[ln - 1] == exp + "True":
+                    if outp[ln - 1] == "integer :: w%d = %s" % (ln, expected_use(rec, empty="True")):
                         t.add("observed:True")
                 if val == "ref":
                     t.add("expansion:" + ex["t"])
@@ -153,6 +189,8 @@ def check_state(st):
                                 t0 = None
                             elif r["live"] and r["k"] == "define" and r["n"] == nm and t0 is None:
                                 t0 = r["ln"]
+                            elif r["live"] and r["k"] == "include" and r["h"] in ("hdef", "hping") and nm == "B" and t0 is None:
+                                t0 = r["ln"]     # the header defines B
                         return 10 ** 6 if t0 is None else t0
                     t.add("rescan:innerFirst" if first_def(inner) < first_def(rec["use"]) else "rescan:outerFirst")
                 out.append((t, {"lines": lines, "init": init, "line": ln, "expected": exp, "observed": outp[ln - 1]}))
@@ -173,7 +211,7 @@ def index_check(st):
     """End to end: declarations in dead regions never indexed, in live regions always."""
     lines, init = render(st)
     src = ["module mm"] + lines + ["end module mm"]
-    d = adapter.mkws({"f.F90": "\n".join(src) + "\n", ".fortls": json.dumps({"pp_defs": init})})
+    d = adapter.mkws(dict(HEADERS, **{"f.F90": "\n".join(src) + "\n", ".fortls": json.dumps({"pp_defs": init})}))
     try:
         s, c = adapter.mkserver(d)
         bad = []
@@ -227,7 +265,8 @@ def main(tier, seed):
         "conditions over defined(X)/defined X, !, &&, ||, parentheses, integer comparisons, literals 0/1",
         "a macro is not redefined while defined (a C preprocessor diagnoses that); comparisons only on numeric or undefined macros",
         "unterminated conditionals are closed by the renderer with #endif lines",
-        "macro bodies do not mention other macros (rescan order not modelled)",
+        "a macro body mentions at most the one other macro of the model (value \"ref\"); function-like macros have one parameter and are invoked with literal arguments, once or twice on a line",
+        "#include names one of four fixed headers (one defines B, one includes itself twice, two include each other twice)",
     ]
     for cfg, req in (("Preproc_MC.cfg", ["If", "Elif", "Else", "Endif", "Define", "UndefLine", "Code"]), ("Preproc_MC2.cfg", ["Elif", "Else"])):
         r = tlc.mc("Preproc", cfg, required_actions=req, timeout=1500)
@@ -258,6 +297,18 @@ def main(tier, seed):
         nsk += 1
     ck.add_tlc("Preproc_GenSkel", info["result"])
     ck.note("skeleton_files", nsk)
+    # macro tables: a macro changes value and kind (object-like / function-like) between uses, headers
+    # that include themselves and each other; maximal files only
+    nmac = 0
+    for cfg, mlen in (("Preproc_GenMacro.cfg", 5), ("Preproc_GenMacro2.cfg", 4)):
+        info = {}
+        for st in tlc.dump_states("Preproc", cfg, info=info, timeout=3000, prefilter=lambda t, m=mlen: t.count("ln |->") == m):
+            if any(r["k"] == "code" and r["use"] != "none" for r in st["file"]) or any(r["k"] == "include" for r in st["file"]):
+                states.append(st)
+                nmac += 1
+        ck.add_tlc(cfg[:-4], info["result"])
+    ck.note("macro_table_files", nmac)
+    header_dir()
     nsim = 1500 if tier == "quick" else 15000
     sim = []
     for beh in tlc.simulate("Preproc", "Preproc_Sim.cfg", num=nsim, depth=15, seed=seed + 3, timeout=1500, workers=8):
@@ -300,6 +351,7 @@ def main(tier, seed):
 
 def replay(path):
     rec = json.load(open(path))
+    header_dir()
     res = check_state(rec["state"])
     for tags, detail in res:
         print(sorted(tags), json.dumps(detail, default=str)[:600])
